@@ -79,6 +79,19 @@ def build(race, tag):
     cmd = ["go", "test", "-c", "-tags", "verif", "-o", out]
     if race:
         cmd.append("-race")
+    alt = os.environ.get("VERIF_REPO")
+    if alt:
+        # development aid only (no registered command sets it): build against another copy of the
+        # tree, e.g. a scratch worktree, while /repo itself is busy
+        d = os.path.join(WORK, "altmod.%d" % os.getpid())
+        os.makedirs(d, exist_ok=True)
+        with open(os.path.join(HARNESS, "go.mod")) as f:
+            mod = f.read().replace("=> /repo", "=> " + alt)
+        with open(os.path.join(d, "go.mod"), "w") as f:
+            f.write(mod)
+        shutil.copy(os.path.join(HARNESS, "go.sum"), os.path.join(d, "go.sum"))
+        cmd.append("-modfile=" + os.path.join(d, "go.mod"))
+        log("NOTE: building against VERIF_REPO=%s instead of /repo" % alt)
     cmd.append("./props")
     t0 = time.time()
     p = subprocess.run(cmd, cwd=HARNESS, env=goenv(), stdout=subprocess.PIPE, stderr=subprocess.STDOUT, text=True)
